@@ -27,7 +27,7 @@ def generate(rng, tier, seed):
     thorough = tier == "thorough"
     cases = []
     nrun = 10 if thorough else 4
-    for _ in range(30 if thorough else 8):
+    for _ in range(40 if thorough else 20):
         base = seed * 1000 + rng.randrange(1000)
         d = rng.choice([3, 5, 7, 10, 20])
         k = rng.choice([1, 2, 3, 4])
@@ -49,9 +49,11 @@ def generate(rng, tier, seed):
         if end:
             emit += [["sleep", end_gap], end]
         meta = {"d": d, "gaps": gaps, "vals": vals, "end_gap": end_gap, "end": end[0] if end else None}
+        # a source that never terminates is unsubscribed in the end (debounce and sample poll for as long as they are subscribed)
+        stop = [["u", ["sleep", sum(gaps) + 3 * d + 1], ["unsub", 0]]] if not end else []
         cases.append(dict(meta, scn=hot(["op", "delay", [d], ["hot", 0]], emit, sched), kind="delay"))
         cases.append(dict(meta, scn=hot(["op", "timeout", [d], ["hot", 0]], emit, sched), kind="timeout"))
-        cases.append(dict(meta, scn=hot(["op", "debounce", [d], ["hot", 0]], emit, sched), kind="debounce"))
+        cases.append(dict(meta, scn=hot(["op", "debounce", [d], ["hot", 0]], emit, sched, extra_threads=stop), kind="debounce"))
         # a consumer that takes time inside its i-th callback: the deadline of an item runs from the moment the consumer is done with it
         gaps2 = list(gaps) + ([1] if len(gaps) < 2 else [])
         i2 = rng.randrange(1, len(gaps2))
